@@ -18,6 +18,8 @@ use std::path::PathBuf;
 use std::sync::{Arc, Mutex};
 use vcommon::*;
 
+mod layout;
+
 /// Test element constructors: injective in `d`, so stale or shifted data can never look right.
 trait Mk: PMMRable<E = Self> + PartialEq + 'static {
 	fn mk(d: u64) -> Self;
@@ -48,6 +50,7 @@ fn main() {
 		(Some("replay"), true) => replay::<VarElem>(&args),
 		(Some("record"), false) => record::<Elem>(&args),
 		(Some("record"), true) => record::<VarElem>(&args),
+		(Some("layout"), _) => layout::layout(&args),
 		_ => {
 			eprintln!("pmmrstore replay|record [--elem fixed|var]");
 			2
